@@ -120,7 +120,7 @@ def r1_chain(cx):
     k = F.one(impl_self="ContainerPack", item="get_pack_reader", closure=False)
     kb = F.body(k)
     hm = kb.calls(r"HashMap::<.*>::get")
-    cx.ob("R1", "R1/ContainerPack.get_pack_reader/keyed-by-uuid", len(hm) == 1 and ("param", 2) in kb.origins(hm[0][1]["args"][1]) and ("field", "packs") in kb.origins(hm[0][1]["args"][0]), k,
+    cx.ob("R1", "R1/ContainerPack.get_pack_reader/keyed-by-uuid", len(hm) == 1 and ("param", 2) in kb.origins(hm[0][1]["args"][1]) and ("param", 1) in kb.origins(hm[0][1]["args"][0]) and any(x[0] == "field" for x in kb.origins(hm[0][1]["args"][0])), k,
           "get_pack_reader looks the uuid up in self.packs")
 
 
@@ -321,7 +321,9 @@ def r7_manifest_search_is_order_independent(cx):
     n = nx[0][0]
     # the iterated collection: all packs of the container, no adapter that drops elements
     adapters = [callee_str(t) for i, t in b.calls(r".") if re.search(r"::(skip|take|take_while|skip_while|filter|filter_map|step_by|find|position|last|nth|next|next_back|max|min|max_by_key|min_by_key)(::<.*>)?$", callee_str(t)) and i != n]
-    src_ok = any(("field", fld) in b.origins(t["args"][0]) for i, t in b.calls(r"IntoIterator>::into_iter$") for fld in ("packs", "packs_uuid"))
+    # (the map uuid -> reader, or the vector of uuids in insertion order: both hold every pack of the container)
+    src_ok = any(("param", 1) in b.origins(t["args"][0]) and any(x[0] == "field" for x in b.origins(t["args"][0])) and re.search(r"HashMap<uuid::Uuid, bases::reader::Reader>|hash_map::Values<.*uuid::Uuid, bases::reader::Reader>|Vec<uuid::Uuid>|slice::Iter<.*uuid::Uuid>|Rev<", callee_str(t))
+                 for i, t in b.calls(r"IntoIterator>::into_iter$"))
     cx.ob("R7", "R7/manifest-search/over-all-packs", src_ok and not adapters, f,
           "the loop iterates self.packs / self.packs_uuid with no element-dropping adapter (adapters: %s)" % adapters)
     # the match on the result of next(): its None arm leaves the loop legitimately (exhaustion)
@@ -376,8 +378,18 @@ def r8_recorded_locations_are_relative(cx):
             return bool(F.body(F.fns[gid]).calls(r"pathdiff::diff_utf8_paths", r"pathdiff::diff_paths"))
         return False
     cf = {i for i, _ in b.calls(r"PackRecipient>::close_file$")}
+    # "an empty location is kept as it is": an arm selected by `<path>.is_empty()` hands the (empty) value through
+    # unchanged -- the blocks under such a test are not a way around the relativisation
+    under_empty_test = set()
+    for sblk in range(b.n):
+        tt = b.term(sblk)
+        if tt["k"] == "switch" and any(x[0] == "call" and call_is(b.term(x[1]), r"::is_empty$") for x in b.origins(tt["op"], through_calls=False)):
+            for x in range(b.n):
+                if x != sblk and sblk in b.control_dep_switches(x):
+                    under_empty_test.add(x)
+    considered = set(range(b.n)) - under_empty_test
     for k, (i, t) in enumerate(sorted(ap, key=lambda x: x[1].get("ln", 0))):
-        o = b.origins(t["args"][2], stop_call=relativiser)
+        o = b.origins(t["args"][2], stop_call=relativiser, blocks=considered)
         raw = sorted(b.term(x[1]).get("ln") for x in o if x[0] == "call" and x[1] in cf)
         cx.ob("R8", "R8/finalize/add_pack#%d-location-is-relative" % k, not raw, f,
               "the location given to add_pack is empty or made relative to the manifest's directory (absolute close_file() results reaching it unrelativised: lines %s)" % raw, ln=t.get("ln"))
